@@ -82,7 +82,7 @@ CHECKS.update({
         note=RENDER_NOTE, design='5/C03'),
     'C09': dict(
         technique='Coq proof: html.escape output has no < > (and no quotes when asked) for all strings; every text chunk the tokeniser emits is escaped and so cannot start a tag; chunks are emitted verbatim by the marker machine; undiffable elements are one verbatim chunk + extracted-model correspondence + observer (script/style of every view are verbatim those of the inputs; deleted ones inert in a template)',
-        text='Theorems: for all strings html.escape contains neither "<" nor ">" (nor quotes with quote=True), and unescape inverts it; for all trees every word, trailing-whitespace and body-text chunk of the flattened page is escape output, so no text chunk starts a tag; the marker machine emits chunks verbatim (no re-interpretation); script/style/svg/template elements are single opaque chunks; the fragment handed to the tokeniser (_diffable_fragment, modelled and tied char for char) writes text nodes of the body escaped, unwraps every source ins/del and keeps all text; every script/style below a deletion marker ends up in an inert template. Observer on html_diff_render: every script/style element in any view is verbatim one of the input page, deleted ones sit inside template.wm-diff-deleted-inert, the title diff meta contains no active markup, escaped payloads in text/attributes/title stay text.',
+        text='Theorems: for all strings html.escape contains neither "<" nor ">" (nor quotes with quote=True), and unescape inverts it; for all trees every word, trailing-whitespace and body-text chunk of the flattened page is escape output, so no text chunk starts a tag; the marker machine emits chunks verbatim (no re-interpretation); script/style/svg/template elements are single opaque chunks; the fragment handed to the tokeniser (_diffable_fragment, modelled and tied char for char) writes text nodes of the body escaped, unwraps every source ins/del and keeps all text; every script/style below a deletion marker ends up in an inert template that is itself outside embedded SVG/MathML (there the element is moved out of the graphic: nothing dropped, order kept). Observer on html_diff_render: every script/style element in any view is verbatim one of the input page, every live one in the combined view is one of the new page (deleted ones sit inside an HTML template.wm-diff-deleted-inert), the title diff meta contains no active markup, escaped payloads in text/attributes/title stay text.',
         note=RENDER_NOTE, design='5/C09'),
     'C15': dict(
         technique='Coq proof: scan invariant of the marker state machine (no block-level tag chunk between an opening and closing marker) for all chunk lists and all contiguous opcodes (single-sided views), combined view = sequence of closed groups and loose tags for all opcode lists (through reconciliation); labelled machines refine the executable model; TREE LEVEL for the single-sided views: read with a stack of open elements, the view of every admissible page (decidable predicate on element trees; stream well nested, no block inside inline) is well nested with no block-level element opened under a marker - invariant through all branches of the marker machine, all contiguous opcode lists, induction over the tree + extracted-model correspondence + per-run run of the theorem instances and stack-parser vs html5-parser tree comparison on the views the implementation returns + document-level observer (no block element inside ins/del.wm-diff in any view)',
@@ -110,7 +110,7 @@ CHECKS['C14'] = dict(
 CHECKS['C17'] = dict(
     technique='Coq proof that the order- and history-dependent constructs cannot influence a result (sorted(set(links)) is the same for every iteration order because the sort key is total on what the set keeps apart; scans over tag sets are existentials; lru_cache is transparent for every call history and eviction policy) + extracted-model correspondence of the sort + process-level exploration (fixed workload under hash seeds x call orders x repeated passes x process pool, digests compared; header mappings unchanged)',
     text='Theorems: for every list of found links and every arrangement (permutation) of its de-duplicated set, sort_links gives the same list - the list handed to the matcher never depends on set iteration order, hence not on PYTHONHASHSEED; the sort key (text.lower(), href) is total on the (href, text.lower()) classes the set distinguishes and de-duplicated links have pairwise different keys; the SEPARATABLE_TAGS scans and all tag-set membership tests are invariant under permutation of the set; a memo cache in front of a pure function returns the function values for every call history and every eviction policy (instantiated for tag_info). A Gallina model is a function by construction, so purity of the model is not claimed. The process-level statement (hash seeds, sequences of calls in long-lived pool workers, native library state, header mappings) is explored: every differ of the service on a fixed workload, in fresh processes under 8 (32 thorough) hash seeds, 3 (6) call orders, repeated passes in one process and in a real process pool; all per-case digests must agree; colour variables may only change results carrying a style block; unrelated environment variables nothing; the process locale (LC_ALL=C) only through the one listed call site (known finding C17-dmp-locale: the native diff classifies characters by LC_CTYPE) - every locale-dependent result must become locale-independent when that one call is pinned. Labelled exploration in the evidence.',
-    note='Trusted: Coq kernel, extraction, harness/purity_worker.py. Not modelled: native libraries (lxml, html5-parser, diff-match-patch) global state, pickling into workers - covered by exploration only.',
+    note='Trusted: Coq kernel, extraction, harness/purity_worker.py. Not modelled: native libraries (lxml, html5-parser, diff-match-patch) global state, pickling into workers - covered by exploration only. Two listed findings (known_findings.json) bound the exploration: results depend on LC_CTYPE and on elapsed time through the one native diff call; divergences are attributed to them only when they vanish with that call pinned / its deadline off.',
     design='5/C17')
 
 NOT_YET = {}
